@@ -109,10 +109,11 @@ def pt_new(cls, x, y, curve):
 
 
 # pycoin/ecdsa/Point.py :: Point.__neg__
+# pycoin/ecdsa/Point.py :: Point.__neg__
 def pt_neg(self):
     if self[1] is None:
         return self
-    return self.__class__(self[0], self._curve.p() - self[1], self._curve)
+    return self._curve.Point(self[0], self._curve.p() - self[1])
 
 
 # pycoin/ecdsa/Point.py :: Point.__sub__
